@@ -1,8 +1,8 @@
 (* C05 -- datagrams: one packet per datagram, boundaries preserved, errors isolated.
    The serializer (serialize / deserialize), the converter (to_dto / from_dto) and the transport's treatment of empty
    payloads (drop_empty) are universally quantified: the statements hold for every one-shot serializer, wrapper and
-   converter.  Models: coq/IO/Datagram.v (DatagramProtocol + endpoints), coq/Frame/OneShot.v (derived one-shot interface). *)
-From EN Require Import Lib.Bytes Frame.Framer Frame.ReadUntil Frame.OneShot IO.Datagram Proofs.C05_proofs.
+   converter.  Models: coq/IO/DgramEndpoint.v (DatagramProtocol + endpoints), coq/Frame/OneShot.v (derived one-shot interface). *)
+From EN Require Import Lib.Bytes Frame.Framer Frame.ReadUntil Frame.OneShot IO.DgramEndpoint Proofs.C05_proofs.
 
 (* one send_packet = exactly one datagram whose payload is serialize(to_dto packet); nothing else changes.
    Side condition: the transport does not swallow empty payloads, or the payload is not empty (see the refutation below). *)
